@@ -24,13 +24,18 @@ ASSUMPTIONS = ['a node without TYPES annotation reports nothing and is always ac
                'tuple types are compared element-wise; resolver answers are computed by applying the real operator to representatives']
 
 M = ps.Menu
-KINDS = ('CHN', 'RDZ', 'LITI', 'LITF', 'LITS', 'BINADD', 'BINMUL', 'CMPV', 'TUPB', 'UNPK', 'LSTB', 'IDX', 'EXTI', 'EXTF', 'UNK', 'AUGV', 'DEFR', 'DEFW', 'CALL', 'RD')
+KINDS = ('DEF3', 'CHN', 'RDZ', 'LITI', 'LITF', 'LITS', 'BINADD', 'BINMUL', 'CMPV', 'TUPB', 'UNPK', 'LSTB', 'IDX', 'EXTI', 'EXTF', 'UNK', 'AUGV', 'DEFR', 'DEFW', 'CALL', 'RD')
 MENUS = {
     'types': M('types', ('LITI', 'LITF', 'LITS', 'BINADD', 'BINMUL', 'CMPV', 'EXTF', 'UNK', 'AUGV', 'RD'), ('if', 'ifelse', 'while', 'for'), vars_=('x',), for_targets=('i',)),
     'tuples': M('tuples', ('LITI', 'LITF', 'TUPB', 'UNPK', 'CHN', 'RDZ', 'LSTB', 'IDX', 'RD'), ('if', 'while'), vars_=('x',), for_targets=('i',)),
     'clos': M('clos', ('LITI', 'LITF', 'DEFR', 'DEFW', 'CALL', 'RD'), ('if', 'while'), vars_=('x',), for_targets=('i',)),
+    # a local function (re)defined inside a loop and called before and after its definition
+    'loopdef': M('loopdef', ('LITI', 'LITF', 'DEFR', 'CALL'), ('while',), vars_=('x',), depth=1),
+    # three function levels: the middle one has its own x (a parameter), the innermost declares it nonlocal
+    'deep': M('deep', ('LITI', 'LITF', 'DEF3', 'CALL', 'RD'), ('if', 'while'), vars_=('x',)),
 }
-PLAN = {'quick': [('types', 3), ('tuples', 3), ('clos', 4)], 'thorough': [('types', 4), ('tuples', 4), ('clos', 5)]}
+PLAN = {'quick': [('types', 3), ('tuples', 3), ('clos', 4), ('loopdef', 6), ('deep', 3)],
+        'thorough': [('types', 4), ('tuples', 4), ('clos', 5), ('loopdef', 7), ('deep', 4)]}
 _S = {'tier': 'quick'}
 ps.VAR_KINDS = ps.VAR_KINDS + tuple(k for k in KINDS if k not in ps.VAR_KINDS)
 
@@ -86,6 +91,13 @@ class Rend(ps.Render):
       e(ind + 1, 'nonlocal %s' % v)
       e(ind + 1, '%s = 2.5' % v)
       e(ind + 1, 'return %s' % v)
+    elif k == 'DEF3':
+      e(ind, "def g(%s='s'):" % v)
+      e(ind + 1, 'def h():')
+      e(ind + 2, 'nonlocal %s' % v)
+      e(ind + 2, 'return %s' % v)
+      e(ind + 1, 'w = %s' % v)
+      e(ind + 1, 'return h()')
     elif k == 'CALL':
       e(ind, 'z = g()')
     else:
@@ -100,7 +112,7 @@ def item_source(item):
   r.emit(1, 'y = 2.5')
   r.emit(1, 'p = (3, 4.5)')
   r.emit(1, 'z = 0')
-  if name == 'clos' and not (body and body[0][0] in ('DEFR', 'DEFW')):
+  if name in ('clos', 'loopdef', 'deep') and not (body and body[0][0] in ('DEFR', 'DEFW', 'DEF3')):
     r.emit(1, 'def g():')
     r.emit(2, 'return y')
   r.block(body, 1)
